@@ -189,10 +189,15 @@ def sk_play(fmt, data, start=1, stop=0, skip=(), is48=True, polarity=0, first_ed
         blocks = tap2sna._get_tape_blocks([('t.' + fmt, data)], True, start, stop, skip, is48)
     except tap2sna.TapeError as e:
         return 'error', str(e.args[0])
+    except Exception as e:          # a crash of the code under test is a verdict, not a harness failure
+        return 'crash', 'parsing raised {}: {}'.format(type(e).__name__, e)
     blocks = [b for b in blocks if b.timings]
     for b in blocks:
         b.keys = None
-    return tape.get_edges(blocks, first_edge, polarity)
+    try:
+        return tape.get_edges(blocks, first_edge, polarity)
+    except Exception as e:
+        return 'crash', 'get_edges raised {}: {}'.format(type(e).__name__, e)
 
 
 class Ref:
@@ -231,6 +236,8 @@ def _tail(lst, n=10):
 def compare_signal(fmt, ref, res):
     """-> list of (clause, detail).  res = sk_play(...)."""
     out = []
+    if res[0] == 'crash':
+        return [('crash', res[1])]
     if ref.error:
         if res[0] != 'error':
             out.append(('unsupported', 'block kind {} is selected but no error was raised'.format(ref.error)))
@@ -394,7 +401,7 @@ def _account(stats, ref, res, start, stop, skip, pol, fe, nsel, key):
         c['unsupported_error'] += 1
         return
     sig = ref.sig
-    if res[0] != 'error':
+    if res[0] not in ('error', 'crash'):
         edges, dbs = res
         stats.state(hash((len(edges), edges[-1], tuple((d.start, d.end) for d in dbs))))
     if sig.npulses and (nsel > 1 or start != 1 or stop or skip or pol or fe):
@@ -557,10 +564,10 @@ def run_flag_unit(stats, uidx, flag, payload):
         res = results[fmt] = sk_play(fmt, fdata)
         vio = compare_signal(fmt, ref, res)
         stats.counters['flag_bytes'] += 1
-        if res[0] != 'error':
+        if res[0] not in ('error', 'crash'):
             stats.state(hash((len(res[0]), res[0][-1])))
         if vio:
-            got = res[1][0].start - 2 if res[0] != 'error' and res[1] else None
+            got = res[1][0].start - 2 if res[0] not in ('error', 'crash') and res[1] else None
             clause, detail = vio[0]
             stats.violation('flags/{}/flag={:02X},payload={}:{}'.format(fmt, flag, len(payload), clause),
                             {'space': 'flags', 'fmt': fmt, 'flag': flag, 'payload': payload},
@@ -577,8 +584,8 @@ def run_flag_unit(stats, uidx, flag, payload):
 
 def flag_equiv(results):
     out = []
-    if any(r[0] == 'error' for r in results.values()):
-        return ['error: {}'.format({k: r[1] for k, r in results.items() if r[0] == 'error'})]
+    if any(r[0] in ('error', 'crash') for r in results.values()):
+        return ['error: {}'.format({k: r[1] for k, r in results.items() if r[0] in ('error', 'crash')})]
     e0, d0 = results['tap']
     for fmt in ('tzx', 'pzx'):
         e, d = results[fmt]
@@ -607,6 +614,14 @@ def roundtrip_lists(tier, mix):
 
 
 def check_roundtrip(datas):
+    try:
+        return _check_roundtrip(datas)
+    except (IndexError, KeyError, ValueError, TypeError, AttributeError, ZeroDivisionError) as e:
+        # raised by write_tap / write_pzx / parse_tap / parse_pzx on a well-formed block list
+        return [('crash', 'round trip raised {}: {}'.format(type(e).__name__, e))]
+
+
+def _check_roundtrip(datas):
     from skoolkit import tape
     out = []
     wd = tools.workdir()
@@ -664,8 +679,8 @@ def check_equiv(datas, pol, fe):
     tape.write_pzx(fname, datas)
     runs['pzx'] = sk_play('pzx', tools.read_file(fname), polarity=pol, first_edge=fe)
     for name, r in runs.items():
-        if r[0] == 'error':
-            return [('equiv', '{}: error {}'.format(name, r[1]))]
+        if r[0] in ('error', 'crash'):
+            return [('equiv', '{}: {} {}'.format(name, r[0], r[1]))]
     e0, d0 = runs['tap']
     e0 = list(e0)
     r0 = [(d.start, d.end, bytes(d.data)) for d in d0]
